@@ -479,3 +479,9 @@ package lang
 //@   loop 1 step imp(!(function == "*" || utCopy[$idx].Function == function), passed == old(passed) && exists == old(exists))
 //@   loop 1 step imp(function == "*" || utCopy[$idx].Function == function, exists)
 //@   ensures imp(result, exists) && p.ExitNum == ite(result, 0, 1)
+
+// HasCancelled samples the process context / state (trusted: a pure observation named $hasCancelled).
+//@ spec $hasCancelled(p ref) bool
+//@ func (*Process).HasCancelled [C15] trusted
+//@   modifies nothing
+//@   ensures result == $hasCancelled(p)
